@@ -173,6 +173,13 @@ def rewrite(body, fname):
     sub('vec-copy-out', r'\bvec = vecval \[ (vecarr_p \[ vecarr_at \( [^;]*\) \]) \] ;', r'VEC_COPY ( vec , \1 ) ;')
     sub('vec-copy-in', r'vecval \[ (vecarr_p \[ vecarr_at \( [^;]*\) \]) \] = vec ;', r'VEC_COPY ( \1 , vec ) ;')
     sub('vec-size', r'\( \* (\w+) \) \. size \( \)|(\w+) -> size \( \)', lambda m: 'veclen [ %s ]' % (m.group(1) or m.group(2)))
+    # a local reference to a stored vector is the address of that vector object; size / resize / element-wise copy on vector objects
+    # (vector values are abstract: identity + length; a prefix copy into a longer vector yields some other value of the old length)
+    vec_ids = {'vec', 'dumvec'} | set(re.findall(r'(?:const )?std :: vector < Scalar > & (\w+) = vecval \[', t))
+    sub('vec-ref', r'(?:const )?std :: vector < Scalar > & (\w+) = vecval \[ (vecarr_p \[ vecarr_at \( [^;]*\) \]) \] ;', r'vvecid \1 = \2 ;')
+    sub('vec-size', r'\b(%s) \. size \( \)' % '|'.join(sorted(vec_ids)), r'veclen [ \1 ]')
+    sub('vec-resize', r'\b(%s) \. resize \( ([^;]+) \) ;' % '|'.join(sorted(vec_ids)), r'VEC_RESIZE ( \1 , \2 ) ;')
+    sub('vec-copy-prefix', r'std :: copy \( (\w+) \. begin \( \) , \1 \. end \( \) , (\w+) \. begin \( \) \) ;', r'VEC_COPY_PREFIX ( \2 , \1 ) ;')
     # scalars
     sub('eps', r'std :: numeric_limits < Scalar > :: epsilon \( \)', 'VF_EPS ( )')
     sub('abs', r'std :: abs \(', 'vabs (')
